@@ -9,6 +9,12 @@ from engine.names import unresolved_names
 from .common import calls_named, enclosing_trys
 
 EXPLANATION = (
+    "R1, R2, R3 and R6 are decided by partial evaluation when the two functions are inside the evaluator's fragment (rules/c19eval.py: "
+    "the source is interpreted by engine/minieval.py on about forty constant inputs with os.urandom, the hash object, scrypt.Scrypt, derive and "
+    "verify replaced by stand-ins that record their arguments; the repository and the cryptography library are never run): which hash strings are "
+    "refused and with which exception type, which salt / length / cost reach the key derivation on both sides, what the writer puts into the string, "
+    "when the result is True, False or an exception. The statement-shape rules described next decide when the evaluation is Undecided (for example a "
+    "default argument evaluated at definition time). "
     "Static rules over Auth.hash_password / Auth.verify_password. Decides: (R1) exception discipline: every operation on data "
     "derived from the hash string that can raise (constant-index subscripts of the split result, b64decode, struct.unpack, encode, "
     "the Scrypt constructor, kdf.verify) raises a subclass of ValueError/TypeError, or is converted by a handler / the `e = ...; if "
@@ -182,8 +188,25 @@ def _flat_text(fi, expr, at):
     return merged
 
 
+def _ev(ctx):
+    """C19 by partial evaluation with the cryptographic library stubbed (rules/c19eval.py); None when the functions are outside the
+    evaluator's fragment - then the shape rules below decide"""
+    from . import c19eval
+    return c19eval.decide(ctx, ctx.fn(HP), ctx.fn(VP))
+
+
+def _why(ev):
+    return "hash_password / verify_password evaluated (engine/minieval, crypto stubbed: urandom, hash object, Scrypt, derive, verify) on %d inputs" % ev["cases"]
+
+
 def r1(ctx):
     vp = ctx.fn(VP)
+    ev = _ev(ctx)
+    if ev is not None:
+        ctx.check(not ev["discipline"], "C19.R1", vp, "every malformed hash string and wrongly typed argument is refused with ValueError / TypeError", _why(ev), witness=ev["discipline"][:3])
+        ctx.check(not ev["accepted_malformed"], "C19.R1", vp, "no malformed hash string yields a verdict (True or False)", _why(ev), witness=ev["accepted_malformed"][:3])
+        ctx.check(not ev["swallowed"], "C19.R1", vp, "a failure inside the key derivation leaves the function (no broad handler turns it into False)", _why(ev), witness=ev["swallowed"][:2])
+        return
     cfg = cfg_of(vp)
     # constant-index subscripts of the split result
     parts_def = [n for n in walk_own(vp.node) if isinstance(n, ast.Assign) and isinstance(n.value, ast.Call) and norm(n.value.func).endswith(".split")]
@@ -266,6 +289,12 @@ def r1(ctx):
 
 def r2(ctx):
     vp = ctx.fn(VP)
+    ev = _ev(ctx)
+    if ev is not None:
+        rt = [x for x in ev["roundtrip"] if "verify(hash_password(pw))" in x]
+        ctx.check(not rt, "C19.R2", vp, "the writer's own hash verifies: the digest compared is the one derived with the embedded salt and parameters", _why(ev), witness=rt[:2])
+        ctx.check(not ev["verdict"], "C19.R2", vp, "a derived key that differs from the embedded digest gives False, never True", _why(ev), witness=ev["verdict"][:2])
+        return
     cfg = cfg_of(vp)
     du = defuse_of(vp)
     ver = [c for c in calls_named(vp, "verify") if norm(c.func) == "kdf.verify"]
@@ -320,8 +349,32 @@ def _scrypt(fi):
     return cs[0] if len(cs) == 1 else None
 
 
+def _constants(ctx, hp):
+    sh = _scrypt(hp)
+    # constants
+    A = ctx.repo.cls("auth:Auth")
+    sl, dl = ctx.folder.class_attr(A, "SALT_LENGTH"), ctx.folder.class_attr(A, "DIGEST_LENGTH")
+    ctx.check(isinstance(sl, int) and isinstance(dl, int) and 8 <= sl <= 255 and 16 <= dl <= 255, "C19.R3", A, "salt and digest lengths fit their one-byte fields and are not trivially short", witness={"SALT_LENGTH": sl, "DIGEST_LENGTH": dl})
+    # (the values that reach the writer's Scrypt as n, r, p - named locals, literals or a module constant)
+    nv = {}
+    if sh is not None:
+        from .common import sym_expr as _se3
+        for nm, x in zip(("N", "r", "p"), _scrypt_args(sh)[2:5]):
+            nv[nm] = ctx.folder.fold(_se3(hp, x, cfg_of(hp).node_of(sh)), hp.module) if x is not None else None
+    ctx.check(nv == {"N": 16384, "r": 16, "p": 1}, "C19.R3", hp, "documented scrypt parameters N=16384, r=16, p=1 (fit the H/B/B fields)", witness=nv)
+
+
 def r3(ctx):
     hp, vp = ctx.fn(HP), ctx.fn(VP)
+    ev = _ev(ctx)
+    if ev is not None:
+        ctx.check(not ev["writer"], "C19.R3", hp, "hash string = scrypt:1:b64(pack('>HBBBB', N, r, p, len(salt), len(digest))):b64(salt + digest) with the values given to Scrypt",
+                  _why(ev), witness=ev["writer"][:2])
+        ctx.check(not ev["roundtrip"], "C19.R3", vp, "the reader derives with exactly the salt, length and cost the writer used, from the same pre-hash of the password",
+                  _why(ev), witness=ev["roundtrip"][:2])
+        ctx.check(not ev["params"], "C19.R3", vp, "the cost parameters, salt and lengths embedded in the string are the ones handed to Scrypt (not defaults)", _why(ev), witness=ev["params"][:2])
+        _constants(ctx, hp)
+        return
     # parameter block
     p = [s for s in struct_sites(hp, ctx.folder) if s.kind == "pack"]
     u = [s for s in struct_sites(vp, ctx.folder) if s.kind == "unpack"]
@@ -490,17 +543,7 @@ def r3(ctx):
     from .common import sym_text as _sx4
     dtxt = _sx4(hp, der[0].args[0], cfg_of(hp).node_of(der[0]), allow_calls=("digest.finalize",)) if len(der) == 1 and der[0].args else None
     ctx.check(len(der) == 1 and dtxt in ("key_material", "digest.finalize()"), "C19.R3", hp, "digest = kdf.derive(pre-hashed password)", witness=dtxt)
-    # constants
-    A = ctx.repo.cls("auth:Auth")
-    sl, dl = ctx.folder.class_attr(A, "SALT_LENGTH"), ctx.folder.class_attr(A, "DIGEST_LENGTH")
-    ctx.check(isinstance(sl, int) and isinstance(dl, int) and 8 <= sl <= 255 and 16 <= dl <= 255, "C19.R3", A, "salt and digest lengths fit their one-byte fields and are not trivially short", witness={"SALT_LENGTH": sl, "DIGEST_LENGTH": dl})
-    # (the values that reach the writer's Scrypt as n, r, p - named locals, literals or a module constant)
-    nv = {}
-    if sh is not None:
-        from .common import sym_expr as _se3
-        for nm, x in zip(("N", "r", "p"), _scrypt_args(sh)[2:5]):
-            nv[nm] = ctx.folder.fold(_se3(hp, x, cfg_of(hp).node_of(sh)), hp.module) if x is not None else None
-    ctx.check(nv == {"N": 16384, "r": 16, "p": 1}, "C19.R3", hp, "documented scrypt parameters N=16384, r=16, p=1 (fit the H/B/B fields)", witness=nv)
+    _constants(ctx, hp)
 
 
 CSPRNG = ("os.urandom", "secrets.token_bytes")
@@ -555,6 +598,10 @@ def r5(ctx):
 
 def r6(ctx):
     vp = ctx.fn(VP)
+    ev = _ev(ctx)
+    if ev is not None:
+        ctx.check(not ev["lengths"], "C19.R6", vp, "digest length >= 1 and equal to the length of the embedded digest, else ValueError", _why(ev), witness=ev["lengths"][:3])
+        return
     cfg = cfg_of(vp)
     ver = [c for c in calls_named(vp, "verify") if norm(c.func) == "kdf.verify"]
     sc = _scrypt(vp)
